@@ -562,7 +562,9 @@ static Token *subst(Token *tok, MacroArg *args) {
       MacroArg *arg = find_arg(args, tok->next);
       if (arg) {
         if (arg->tok->kind != TK_EOF) {
+          bool has_space = cur->has_space;
           *cur = *paste(cur, arg->tok);
+          cur->has_space = has_space;
           for (Token *t = arg->tok->next; t->kind != TK_EOF; t = t->next)
             cur = cur->next = copy_token(t);
         }
@@ -570,7 +572,9 @@ static Token *subst(Token *tok, MacroArg *args) {
         continue;
       }
 
+      bool has_space = cur->has_space;
       *cur = *paste(cur, tok->next);
+      cur->has_space = has_space;
       tok = tok->next->next;
       continue;
     }
